@@ -57,8 +57,7 @@ type Writer struct {
 	w     *posWriter
 	origW io.Writer
 
-	// canSeek is set if origW can seek (a Seek method alone does not tell: an
-	// *os.File may be a pipe).  seekBase is the offset in origW of the first
+	// canSeek is set if origW can seek.  seekBase is the offset in origW of the first
 	// byte of the PDF file: positions inside the PDF file are counted from
 	// there, the sink may hold other data before it.
 	canSeek    bool
@@ -288,10 +287,14 @@ func NewWriter(w io.Writer, v Version, opt *WriterOptions) (*Writer, error) {
 	}
 	pdf.rm = NewResourceManager(pdf)
 	if ws, ok := w.(io.WriteSeeker); ok {
-		if base, err := ws.Seek(0, io.SeekCurrent); err == nil {
-			pdf.canSeek = true
-			pdf.seekBase = base
+		base, err := ws.Seek(0, io.SeekCurrent)
+		if err != nil {
+			// a sink which offers Seek but cannot seek (a pipe passed as
+			// *os.File) must be wrapped by the caller to hide the method
+			return nil, err
 		}
+		pdf.canSeek = true
+		pdf.seekBase = base
 	}
 
 	_, err = fmt.Fprintf(pdf.w, "%%PDF-%s\n%%\x80\x80\x80\x80\n", versionString)
